@@ -60,11 +60,71 @@ def gen_toon_value(rng, depth=3):
     if r < 0.65:
         n = rng.choice([0, 1, 2, 3, 4])
         k = rng.random()
-        if k < 0.35:
+        if k < 0.3:
             return [gen_toon_value(rng, 0) for _ in range(n)]                 # primitives: inline array
+        if k < 0.42:
+            return [[gen_toon_value(rng, 0) for _ in range(rng.choice([0, 1, 2, 3]))] for _ in range(n)]      # array of arrays of primitives: "- [N]: …" rows
         if k < 0.7:
             keys = rng.sample(TOON_KEYS, rng.randint(1, 3))                   # uniform objects: tabular form
             return [Obj([(kk, gen_toon_value(rng, 0)) for kk in keys]) for _ in range(n)]
         return [gen_toon_value(rng, depth - 1) for _ in range(n)]             # mixed: list form
     keys = rng.sample(TOON_KEYS, rng.randint(0, 4))
     return Obj([(k, gen_toon_value(rng, depth - 1)) for k in keys])
+
+
+# ---- TOON: systematic nesting -------------------------------------------------------------------------------------------------------
+# payload x position (x position) x delimiter x indent. The encoder has one code path per (kind of array, where it stands): an array of
+# arrays / of uniform objects / of primitives is written by different functions as a member value, as the first field of a list-item
+# object, as a later field, as an element of a mixed array and at the root; each writes its own "[N<delimiter>]" header.
+
+DELIM_CHAR = {"c": b",", "t": b"\t", "p": b"|"}
+
+
+def toon_payloads(dl):
+    """arrays of arrays, tabular arrays, inline arrays and strings, with and without the active delimiter inside strings"""
+    ds = b"a" + DELIM_CHAR[dl] + b"b"
+    return [
+        ("aa", [[1, 2], [3, 4]]),
+        ("aa-str", [[b"a", b"b"], [b"c"]]),
+        ("aa-delim", [[ds, b"x"], [True, None]]),
+        ("aa-one", [[1], [2]]),
+        ("aa-empty-row", [[], [1, 2]]),
+        ("aa-single", [[1, 2, 3]]),
+        ("tab", [Obj([(b"id", 1), (b"name", b"a")]), Obj([(b"id", 2), (b"name", b"b")])]),
+        ("tab-delim", [Obj([(b"id", 1), (b"name", ds)]), Obj([(b"id", 2), (b"name", DELIM_CHAR[dl])])]),
+        ("tab-one-col", [Obj([(b"a", ds)])]),
+        ("prims", [1, b"x", True]),
+        ("prims-delim", [ds, 2, DELIM_CHAR[dl]]),
+        ("prims-empty", []),
+        ("str-delim", ds),
+        ("objs", [Obj([(b"a", 1)]), Obj([(b"b", ds)])]),
+        ("mixed", [1, b"a", [2, 3]]),
+    ]
+
+
+TOON_POSITIONS = [
+    ("member", lambda p: Obj([(b"k", p)])),
+    ("later-member", lambda p: Obj([(b"a", 1), (b"k", p), (b"z", b"end")])),
+    ("item-first-field", lambda p: Obj([(b"items", [Obj([(b"m", p), (b"name", b"x")])])])),
+    ("item-later-field", lambda p: Obj([(b"items", [Obj([(b"name", b"x"), (b"m", p)])])])),
+    ("root-item-first-field", lambda p: [Obj([(b"m", p), (b"n", 1)]), Obj([(b"m", p)])]),
+    ("mixed-elem", lambda p: Obj([(b"items", [1, p])])),
+    ("root-mixed-elem", lambda p: [1, p]),
+    ("root-mixed-first", lambda p: [p, b"s", p]),
+]
+
+
+def toon_shapes():
+    """[(tag, indent, delimiter letter, value)]"""
+    out = []
+    for dl in "ctp":
+        for ptag, p in toon_payloads(dl):
+            ctxs = [("root", lambda x: x)] + TOON_POSITIONS
+            for ind in (1, 2, 3, 4):
+                for ctag, f in ctxs:
+                    out.append(("%s@%s" % (ptag, ctag), ind, dl, f(p)))
+            for ind in (2, 4):
+                for otag, f in TOON_POSITIONS:                  # nested twice
+                    for itag, g in TOON_POSITIONS:
+                        out.append(("%s@%s@%s" % (ptag, itag, otag), ind, dl, f(g(p))))
+    return out
